@@ -6,12 +6,13 @@
     every stream however it ends.  Compiler correctness ([compile_correct]) is proved for the binding core: variables, `as $x |` (nested, shadowing), `|`, `,`,
     `//`, arithmetic, comparison, `and`/`or`, negation, `if`, `try`, array construction, paths, `reduce`/`foreach`, `label`/`break` - the compiled term with variables as
     positions computes exactly the named semantics.  [compile_defs] extends this to definitions without parameters - recursive, nested, capturing
-    the variables and labels in scope - against the table of definitions the compiler fills.  Definitions with parameters, objects and
+    the variables and labels in scope - against the table of definitions the compiler fills; [compile_params] adds variable parameters
+    (`def f($a; $b): ...`, arguments evaluated in order and bound on top of the definition's environment).  Filter parameters, objects and
     destructuring patterns rest on the correspondence of tables and outputs. *)
 From Coq Require Import List FunctionalExtensionality.
 From JaqV Require Import Base.Bytes Base.Stream Val.Val Val.Err Core.Syntax Core.Compile Core.Natives Core.Run Proofs.StreamLaws Proofs.MonadLaws
   Proofs.CompileCorrect.
-From JaqV Require Proofs.CompileDefs.
+From JaqV Require Proofs.CompileDefs Proofs.CompileParams.
 Import ListNotations.
 
 (** ** the interpreter's clauses *)
@@ -124,3 +125,23 @@ Theorem compile_defs_closed : forall g d nr n t, CompileDefs.frag [] [] n t ->
     /\ forall fuel v, run d nr (c_defs s') fuel k {| vars := []; labels := 0 |} v = CompileDefs.sem d fuel t [] [] 0 v.
 Proof. exact CompileDefs.compile_defs_closed. Qed.
 Print Assumptions compile_defs_closed.
+
+(** ** compiler correctness with definitions that take variable parameters *)
+(** [CompileParams.frag]: as above, plus `def f($a; $b; ...): body; t` and calls `f(s; t; ...)`.  The named semantics evaluates
+    the arguments in order (all combinations, first argument outermost) and runs the body in the environment of the
+    definition extended by the parameters; the compiled call evaluates them onto the context left after dropping the
+    bindings made since the definition.  Statement as [compile_defs]. *)
+Theorem compile_params : forall g d nr b fs n t, CompileParams.frag b fs n t ->
+  forall m e s tr, (n <= m)%nat -> CompileParams.scoped b e -> CompileParams.fscoped fs e ->
+  exists k trr s', c_term g m e s t tr = ((k, trr), s') /\ CompileParams.extends s s'
+    /\ forall defs, CompileParams.covers s s' defs -> forall fuel c rho phi v,
+          CompileParams.agrees e c rho -> CompileParams.funs_rel d nr defs fuel (e_funs e) rho phi ->
+          run d nr defs fuel k c v = CompileParams.sem d fuel t rho phi (labels c) v.
+Proof. exact CompileParams.compile_params. Qed.
+Print Assumptions compile_params.
+
+Theorem compile_params_closed : forall g d nr n t, CompileParams.frag [] [] n t ->
+  exists k trr s', c_term g n empty_env empty_cst t [] = ((k, trr), s') /\ c_errs s' = 0%nat
+    /\ forall fuel v, run d nr (c_defs s') fuel k {| vars := []; labels := 0 |} v = CompileParams.sem d fuel t [] [] 0 v.
+Proof. exact CompileParams.compile_params_closed. Qed.
+Print Assumptions compile_params_closed.
